@@ -9,6 +9,7 @@ CONSTANTS
   MaxLife = 0
   MaxDims = 2
   MaxSteps = 0
+  MaxGen = 0
   EmitActs = {"Delete"}
   EmitRes = "any"
   EmitWhen = "always"
